@@ -25,7 +25,7 @@ Logged ==
   /\ euCount' = Ev.euCount
   /\ euFlag' = Ev.euFlag
 
-Keep == UNCHANGED <<exc, steps, viol>>
+Keep == UNCHANGED <<pool, exc, steps, viol>>
 
 TEnterEU == /\ Ev.ev = "enter_eu" /\ EnterEUP(Ev.units, InLib)
             /\ UNCHANGED <<frames, tainted>> /\ Keep
@@ -44,7 +44,7 @@ TLibBegin ==
   /\ Ev.ev = "lib_begin"
   /\ frames' = Append(frames, [name |-> Ev.name, pc |-> 0, entry |-> cur,
                                bk |-> NoBk, depth |-> Len(ctx)])
-  /\ UNCHANGED <<cur, saved, ctx, euCount, euFlag, exc, steps, viol, tainted>>
+  /\ UNCHANGED <<cur, saved, ctx, euCount, euFlag, pool, exc, steps, viol, tainted>>
 
 TLibEnd ==
   /\ Ev.ev = "lib_end" /\ InLib /\ Top.name = Ev.name
@@ -52,7 +52,7 @@ TLibEnd ==
   /\ frames' = Front(frames)
   /\ viol' = (viol \/ (~Ev.exc /\ cur # Top.entry))
   /\ tainted' = (tainted \/ (Ev.exc /\ cur # Top.entry))
-  /\ UNCHANGED <<cur, saved, ctx, euCount, euFlag, exc, steps>>
+  /\ UNCHANGED <<cur, saved, ctx, euCount, euFlag, pool, exc, steps>>
 
 TraceNext ==
   /\ l <= Len(Traces[tid])
